@@ -3,6 +3,7 @@ import FractopoModel.Lemmas.TopoPerm
 import FractopoModel.Props.C08
 import FractopoModel.Props.C14
 import FractopoModel.Lemmas.IntersectionFilter
+import FractopoModel.Generated.LineDataCache
 /-!
 # C11 — results depend only on 2-D geometry: order, direction, similarity
 
@@ -112,6 +113,33 @@ theorem C11_intersection_filter_order_free {L P : Type} (inter : List P) (ends_o
 example : Gen.intersection_points_no_vnode [5, 9] (fun l : Nat × Nat => [l.2, l.1]) (fun a b => a == b) [(7, 8), (1, 5)] (5, 6)
     = Gen.intersection_points_no_vnode [5, 9] (fun l : Nat × Nat => [l.1, l.2]) (fun a b => a == b) [(1, 5), (7, 8)] (5, 6) ∧
     Gen.intersection_points_no_vnode [5, 9] (fun l : Nat × Nat => [l.1, l.2]) (fun a b => a == b) [(1, 5), (7, 8)] (5, 6) = [9] := by decide +kernel
+
+/-! ### decoration with columns named like the package's cache columns (known finding F12) -/
+
+/-- helper: a frame that already has a `length` column gets it back unchanged -/
+theorem length_cached (lengths stale : List Rat) (counts : List Int) (cols : LineCols) (hl : cols.length = some stale) :
+    Gen.ld_length_array Gen.intersection_count_to_boundary_weight lengths counts cols = (.ok stale, cols) := by
+  unfold Gen.ld_length_array; rw [hl]
+
+/-- helper: the set assignment reads a pre-existing `azimuth` column instead of the geometry -/
+theorem sets_cached_azimuth (detset : Rat → String) (azimuths a : List Rat) (cols : LineCols) (ha : cols.azimuth = some a) (hs : cols.azimuth_set = none) :
+    (Gen.ld_azimuth_set_array detset azimuths cols).1 = a.map detset := by
+  unfold Gen.ld_azimuth_set_array Gen.ld_azimuth_array
+  rw [hs, ha]
+
+
+/-- **F12, stated on the regenerated code.** The regenerated column cache of `LineData` returns whatever the wrapped frame already holds under the
+names `length` / `azimuth` (…): a user's attribute column of that name REPLACES the value computed from the geometry, and the set assignment is made from
+the user's `azimuth` values. Extra columns are therefore not always inert -- the decoration clause of C11 fails exactly for these names (the names are
+`Gen.line_cache_columns`). -/
+theorem C11_F12_cache_named_columns_win (lengths stale azimuths user_az : List Rat) (counts : List Int) (detset : Rat → String) (cols : LineCols)
+    (hl : cols.length = some stale) (ha : cols.azimuth = some user_az) (hs : cols.azimuth_set = none) :
+    Gen.ld_length_array Gen.intersection_count_to_boundary_weight lengths counts cols = (.ok stale, cols) ∧
+    (Gen.ld_azimuth_set_array detset azimuths cols).1 = user_az.map detset ∧
+    Gen.line_cache_columns = ["length", "azimuth", "azimuth_set", "boundary_weight", "length non-weighted"] :=
+  ⟨length_cached lengths stale counts cols hl, sets_cached_azimuth detset azimuths user_az cols ha hs, rfl⟩
+
+example : (Gen.ld_azimuth_set_array (fun a => if a < 90 then "E" else "W") [10, 100] { azimuth := some [100, 100] }).1 = ["W", "W"] := by decide +kernel
 
 /-! ### dimensional analysis of the published parameters (through C08: generated = published) -/
 
